@@ -27,7 +27,7 @@
 //      PedersenCommitmentScheme::TestMembership is documented as the range test 0 < c < p only and is held to that.
 //
 // Regimes: tiny (F,G) = (16,8) [QR: 16, E=8] and (20,10); small (256,160); default (2048,256) / QR 512.
-// Tiers: quick = tiny, 4 sets of (16,8) + 1 of (20,10);  thorough = tiny 16+4 sets, small 4 sets, default 1 set.
+// Tiers: quick = tiny, 4 sets of (16,8) + 1 of (20,10);  thorough = tiny 16+4 sets, small 8 sets, default 1 set.
 #include "drv.hh"
 #include "c06_subjects.hh"
 #include <signal.h>
@@ -222,7 +222,7 @@ static void build_catalogue(std::vector<Entry> &E, const PSet &s)
 			Z p2, k2, j;
 			long jb = (long)s.F - 2 * (long)q.bits();
 			mpz_set_ui(j.v, 1);
-			if (jb > 0) mpz_mul_2exp(j.v, j.v, (unsigned long)jb);
+			if (jb + 1 > 0) mpz_mul_2exp(j.v, j.v, (unsigned long)(jb + 1));   // |q^2 j| >= 2|q|-1 + jb+1 = F
 			if (mpz_odd_p(j.v)) mpz_add_ui(j.v, j.v, 1);
 			for (;; mpz_add_ui(j.v, j.v, 2))
 			{
@@ -609,7 +609,7 @@ int main(int argc, char **argv)
 	std::vector<Regime> regs;
 	{
 		Regime t16 = { "tiny16", 16, 8, 16, 8, thorough ? 16 : 4 }, t20 = { "tiny20", 20, 10, 20, 12, thorough ? 4 : 1 };
-		Regime sm = { "small", 256, 160, 256, 160, 4 }, df = { "default", 2048, 256, 512, 256, 1 };
+		Regime sm = { "small", 256, 160, 256, 160, 8 }, df = { "default", 2048, 256, 512, 256, 1 };
 		regs.push_back(t16), regs.push_back(t20);
 		if (thorough || regsel == "small") regs.push_back(sm);
 		if (thorough || regsel == "default") regs.push_back(df);
